@@ -98,7 +98,11 @@ func (e *aggregate) SubMergers(subs []Expr) []SubMerge {
 	result := make([]SubMerge, len(subs))
 	for i, sub := range subs {
 		if e.String() == sub.String() {
+			// Only merge from the first matching sub expression: a table may hold
+			// the same expression under several names, and merging every one of
+			// them into this value would count the data several times.
 			result[i] = e.subMerge
+			break
 		}
 	}
 	return result
